@@ -137,7 +137,7 @@ def main(tier, seed):
     t0 = time.time()
     rep = C.Reporter(PID, tier, seed)
     C.build(['repo', 'core'])
-    shards, per = (32, 1500) if tier == 'quick' else (160, 3125)
+    shards, per = (32, 1500) if tier == 'quick' else (160, 12500)
     _RUN.update(tier=tier, seed=seed, per=per, dir=C.mktmp(PID))
     res = C.pmap(_shard, list(range(shards)))
     hist = {}
@@ -155,7 +155,7 @@ def main(tier, seed):
         maxlen = max(maxlen, r['maxlen'])
         if len(samples) < 5:
             samples.extend(r['samples'][:1])
-    nchk = 600 if tier == 'quick' else 5000
+    nchk = 600 if tier == 'quick' else 20000
     for items in C.pmap(_check_case, list(range(nchk)), chunksize=8):
         rep.merge(items)
     cov = {
